@@ -3,9 +3,9 @@ From GmVerif Require Import Base.Bytes Hash.MD Hash.Instances Cipher.SM4 Cipher.
   Cipher.AES Cipher.ZUC Cipher.ChaCha Cipher.Aead.
 Extraction Language OCaml.
 Extraction "../ocaml/gen/ModelC04b.ml"
-  Z.of_N N.of_nat
+  Z.of_N N.of_nat aes_encrypt_block16
   sm4_encrypt_block sm4_decrypt_block
-  gf_from_bytes gf_to_bytes gf128_mul poly gf_mul_horner gf_mul_alg1
+  gf_from_bytes gf_to_bytes gf128_mul gf128_mul_by_2 gf_one xtime poly gf_mul_horner gf_mul_alg1
   ghash ghash_spec ghash_init ghash_update ghash_finish
   gcm_encrypt gcm_decrypt gcm_spec_encrypt gcm_init gcm_enc_update gcm_enc_finish
   gcm_dec_update gcm_dec_finish gcm_dec_update_overread gcm_encrypt_stream gcm_decrypt_stream
